@@ -47,11 +47,14 @@ from verifkit.props.c04 import setup_shard, teardown_shard  # noqa: E402,F401  (
 def run_case(rng, idx, tier, lane, ctx):
     drift = rng.random() < 0.25      # a quarter of the models also carry explicit ODE terms (deterministic drift inside tau-leap steps)
     spec = GE.gen_events(rng, limits="mixed", max_mag=3, drift=drift)
+    grow_k = S.maybe_grown(rng, spec, 0.15)     # built for the first k states, evaluated, then extended (states via state_list, processes via add_*)
     theta = GE.param_values(rng, spec)
     x0 = GE.initial_state(rng, spec, hi=15, boundary_prob=0.25)
     ref, V = S.numeric_V(spec, theta)
     horizon = S.choose_horizon(rng, ref, x0, theta, targets=(10, 40, 120))
     cls = G.classes(spec)
+    if grow_k:
+        cls.append("grown-model")
     if drift:
         cls.append("events+ode-drift")
     for l in spec["limits"]:
@@ -66,13 +69,16 @@ def run_case(rng, idx, tier, lane, ctx):
     configs = []
     nontriv = False
     try:
-        m = S.build_sim(spec, theta, x0)
+        m = S.build_sim(spec, theta, x0, grown=(rng, grow_k) if grow_k else None)
     except Exception as e:
         return {"status": "violated", "sample": spec, "counters": counters,
                 "witnesses": [{"what": "model construction raised", "error": short_exc(e), "tb": tb_tail(e)}]}
     lims_seen = [tuple(l) for l in m._state_lims]
+    stored_note = None
     if lims_seen != [tuple(l) for l in spec["limits"]]:
-        wit.append({"what": "the model stores limits other than the declared ones", "stored": lims_seen, "declared": spec["limits"]})
+        # not a refutation by itself (the property is about the states of the paths); reported with any violation found below
+        counters["models_storing_other_limits_than_declared"] = 1
+        stored_note = {"stored": lims_seen, "declared": spec["limits"]}
     for exact in (True, False):
         for gridded in (False, True):
             cfg = {"exact": exact, "n": rng.randint(1, 2), "seed": np_seed(rng), "pre_tau": None, "epsilon": None, "gridded": gridded}
@@ -124,6 +130,9 @@ def run_case(rng, idx, tier, lane, ctx):
     res = {"status": "violated" if wit else "held", "nontrivial": nontriv, "key": canon_hash(sample), "classes": cls,
            "counters": counters, "sample": sample}
     if wit:
+        if stored_note:
+            for w in wit:
+                w["limits_stored_by_the_model"] = stored_note["stored"]
         res["witnesses"] = wit[:6]
     return res
 
